@@ -156,6 +156,19 @@ chk(
     "provenance analysis + who-may-touch-field + dominance over rustc_private facts",
 )
 
+chk(
+    "C12",
+    "Partial: decided are error classification (every lexer/parser error is new(self.expr, position, Parse); every error "
+    "under the evaluator is from_ctx(ctx, Runtime) or a provably dead internal conversion error — live ones are reported and "
+    "two are known findings), the offset typestate of the evaluator (store after argument evaluation, save/restore around "
+    "the invocation so nested calls cannot leave a stale offset, store before InvalidSlice, who-may-write), byte-offset "
+    "provenance of every token / Ast / context offset (char_indices indices, expr.len() or 0) and the byte-vs-character "
+    "unit discipline of JmespathError::new (prefix delimited by byte index, newline/column bookkeeping). Not decided: the "
+    "rendered message text and caret placement.",
+    "Trusted: Number::as_f64 is total without arbitrary_precision; conversion errors of non-JSON input are out of scope.",
+    "who-may-construct + provenance + offset typestate by dominance / post-dominance + unit (bytes vs chars) and finiteness qualifiers",
+)
+
 for pid in [f"C{n:02d}" for n in range(1, 19)]:
     if pid not in CHECKS and pid not in NOT_APPLICABLE:
         na(pid, "check not implemented yet in this revision of /verif (work in progress; see DESIGN.md §3)")
